@@ -630,6 +630,28 @@ func (s *Sim) opBuyAdvanceReplace() {
 	s.doBuy(c, c, vrandPick(s, s.Plans), 1, false, true)
 }
 
+// opBuyThenUpgrade: a consumer without a subscription buys one and upgrades it in the very same block.
+func (s *Sim) opBuyThenUpgrade() {
+	var c *Cons
+	for _, x := range s.Cons {
+		if _, found := s.TS.Keepers.Subscription.GetSubscription(s.TS.Ctx, x.Addr); !found {
+			c = x
+			break
+		}
+	}
+	if c == nil {
+		if len(s.Cons) >= 12 {
+			return
+		}
+		acc, addr := s.TS.AddAccount(common.CONSUMER, len(s.Cons), bigBalance)
+		c = &Cons{Acc: acc, Addr: addr, Devs: []sigs.Account{s.newAccount(1000)}}
+		s.Cons = append(s.Cons, c)
+	}
+	if r := s.doBuy(c, c, "free", 1+s.R.Intn(2), false, false); r.OK() {
+		s.doBuy(c, c, "prem", 1+s.R.Intn(3), false, false)
+	}
+}
+
 func (s *Sim) opAutoRenew() {
 	c := s.Cons[s.R.Intn(len(s.Cons))]
 	msg := &subscriptiontypes.MsgAutoRenewal{Creator: c.Addr, Consumer: c.Addr, Enable: s.R.Intn(2) == 0, Index: vrandPick(s, s.Plans)}
@@ -1076,7 +1098,7 @@ func (s *Sim) baseOpTable() []opEntry {
 		{"ds_delegate", s.opDsDelegate}, {"ds_redelegate", s.opDsRedelegate}, {"ds_unbond", s.opDsUnbond}, {"ds_claim", s.opDsClaim},
 		{"st_delegate", s.opStDelegate}, {"st_undelegate", s.opStUndelegate}, {"st_redelegate", s.opStRedelegate}, {"st_cancel", s.opStCancel},
 		{"slash", s.opSlash},
-		{"buy", s.opBuy}, {"buy_adv_replace", s.opBuyAdvanceReplace}, {"autorenew", s.opAutoRenew}, {"addproject", s.opAddProject}, {"delproject", s.opDelProject},
+		{"buy", s.opBuy}, {"buy_adv_replace", s.opBuyAdvanceReplace}, {"buy_then_upgrade", s.opBuyThenUpgrade}, {"autorenew", s.opAutoRenew}, {"addproject", s.opAddProject}, {"delproject", s.opDelProject},
 		{"addkeys", func() { s.opKeys(false) }}, {"delkeys", func() { s.opKeys(true) }},
 		{"setpolicy", func() { s.opSetPolicy(false) }}, {"setsubpolicy", func() { s.opSetPolicy(true) }},
 		{"plan_add", s.opPlanAdd}, {"plan_del", s.opPlanDel}, {"param", s.opParam}, {"iprpc_data", s.opIprpcData}, {"fund_iprpc", s.opFundIprpc},
